@@ -31,7 +31,7 @@ PROP = dict(
                "extension functions: each refines the list operation (l ++ [x], dropLast/getLast, two-sided bound, set, least index, "
                "swap-with-last removal), errors are ArrayOutOfBounds with no partial write, clone/filled produce deep, mutually independent "
                "copies at any nesting depth. Tied to /repo on every run by executing random aliased histories on the real VM.",
-    level_note="The step from vm.rs / prelude.abra to the heap model is by correspondence. D6 (pop on empty), D34/D35 (array<void>: element reads in for-bodies faulted the VM; "
-               "out-of-range stores of void were not detected) were found by this check and are fixed in /repo; their inputs run first as a regression corpus.",
+    level_note="The step from vm.rs / prelude.abra to the heap model is by correspondence. D6 (pop on an empty array panicked the host; design phase) and D34/D35 (array<void>: element reads in for-bodies faulted the VM, "
+               "out-of-range stores of void were not detected; found by this check) are fixed in /repo; their inputs run on every run as a regression corpus.",
     technique="Lean 4 refinement theorems over an explicit heap model + differential correspondence against the real VM + reference list model in Rust",
 )
